@@ -1,7 +1,7 @@
 ----------------------------- MODULE CoapTcpEval -----------------------------
-(* TLC as evaluator and judge for property C15 (no behaviours: everything   *)
-(* happens while TLC checks the ASSUMEs).  The JSON file named by the       *)
-(* environment variable TRACE_FILE holds                                    *)
+(* TLC as evaluator and judge for property C15 (one two-state behaviour per *)
+(* item; everything happens while TLC checks the invariant `Report').  The  *)
+(* JSON file named by the environment variable TRACE_FILE holds             *)
 (*                                                                          *)
 (*   enc: messages to be framed.  TLC prints what RFC 8323 section 3.2 puts *)
 (*        in front of the payload bytes (<<"ENC", i, bytes>>); checks/c15.py*)
@@ -32,7 +32,6 @@ EncHead(e) ==
 
 \* --------------------------------------------------------------- judging
 Min(a, b) == IF a < b THEN a ELSE b
-Cat(f(_), k) == Flatten([i \in 1..k |-> f(i)])
 
 FrameCode(b) == LET h == Header(b) IN IF h.ok /\ Len(b) >= h.off THEN b[h.off] ELSE 999
 RECURSIVE EndOf(_, _)
@@ -41,43 +40,34 @@ CsmPossible(c, pos) == \E i \in 1..Len(c.frames) : EndOf(c, i) <= pos /\ FrameCo
 
 ObsMsg(d) == Msg(d.code, d.tok, d.opts, d.pay)
 
-\* model states after each observed chunk; where the statement leaves the
-\* reaction open the model follows what the endpoint was seen to do
-RECURSIVE States(_, _, _, _, _)
-States(c, stream, k, st, pos) ==
-  IF k > Len(c.obs.steps) THEN << >>
-  ELSE LET n  == c.cuts[k]
-           s2 == RecvChunk(st, SubSeq(stream, pos + 1, pos + n),
-                           c.obs.steps[k].closed /\ c.obs.steps[k].exc = "", c.maxmsg, c.ptoks)
-       IN <<s2>> \o States(c, stream, k + 1, s2, pos + n)
-
 Pongs(msgs) == LET p == SelectSeq(msgs, LAMBDA m : m.code = PONG) IN [i \in 1..Len(p) |-> p[i].tok]
 ExpPongToks(wr) == LET p == SelectSeq(wr, LAMBDA w : w[1] = "pong") IN [i \in 1..Len(p) |-> p[i][2]]
 
-StepBad(c, stream, k, s, pos) ==
-  LET os     == c.obs.steps[k]
-      judged == s.done = "no"
-      odr    == Cat(LAMBDA i : c.obs.steps[i].disp, k)
+\* The clauses after chunk k.  s: model state; pos: bytes delivered; odr / wbytes:
+\* everything handed to the token manager / written so far; os: the observed step.
+StepBad(c, stream, s, pos, odr, wbytes, os, last) ==
+  LET judged == s.done = "no"
+      crashed == os.exc # ""          \* data_received raised: the connection is torn down
       od     == [i \in 1..Len(odr) |-> ObsMsg(odr[i])]
       exp    == s.disp
       m      == Min(Len(od), Len(exp))
       diff   == {i \in 1..m : od[i] # exp[i]}
       p      == IF diff = {} THEN m + 1 ELSE CHOOSE i \in diff : \A j \in diff : i <= j
-      dOK    == (IF judged THEN Len(od) = Len(exp) ELSE Len(od) >= Len(exp)) /\ diff = {}
+      dOK    == diff = {} /\ (IF crashed THEN Len(od) <= Len(exp)
+                              ELSE IF judged THEN Len(od) = Len(exp) ELSE Len(od) >= Len(exp))
       extra  == p <= Len(od)
       csmP   == CsmPossible(c, pos)
       howOK  == \A i \in 1..Len(odr) : odr[i].how = (IF IsResp(odr[i].code) THEN "resp" ELSE "req")
-      wbytes == Cat(LAMBDA i : c.obs.steps[i].wr, k)
       ow     == ParseFrames(wbytes)
       canon  == ow.rest = << >> /\ Flatten([i \in 1..Len(ow.msgs) |-> Frame(ow.msgs[i])]) = wbytes
       po     == Pongs(ow.msgs)
       pe     == ExpPongToks(s.wr)
+      pOK    == IF crashed THEN IsPrefix(po, pe) ELSE IF judged THEN po = pe ELSE IsPrefix(pe, po)
       others == SelectSeq(ow.msgs, LAMBDA x : x.code \notin {PONG, ABORT})
       aborted == \E i \in 1..Len(ow.msgs) : ow.msgs[i].code = ABORT
-      last   == k = Len(c.obs.steps)
-      \* the connection was closed (or data_received raised) although the model
-      \* is still judging: what would the rest of the stream have brought?
-      cutoff == last /\ judged /\ (os.closed \/ os.exc # "") /\ pos < Len(stream)
+      \* the connection was closed although the model is still judging: what
+      \* would the rest of the stream have brought?
+      cutoff == last /\ judged /\ os.closed /\ ~crashed /\ pos < Len(stream)
       rest   == RecvChunk(s, SubSeq(stream, pos + 1, Len(stream)), FALSE, c.maxmsg, c.ptoks)
   IN (IF dOK /\ howOK THEN {}
       ELSE IF extra /\ od[p].code = EMPTY THEN {"C15_EmptyIgnored"}
@@ -85,40 +75,63 @@ StepBad(c, stream, k, s, pos) ==
       ELSE {"C15_DispatchIndependentOfChunking"})
      \cup (IF od # << >> /\ ~csmP THEN {"C15_NoDispatchBeforeCsm"} ELSE {})
      \cup (IF canon THEN {} ELSE {"C15_FrameIs8323"})
-     \cup (IF (IF judged THEN po = pe ELSE IsPrefix(pe, po)) THEN {} ELSE {"C15_PingPong"})
-     \cup (IF s.done = "fatal" /\ ~(aborted /\ os.closed) THEN {"C15_FatalAborts"} ELSE {})
+     \cup (IF pOK THEN {} ELSE {"C15_PingPong"})
+     \cup (IF crashed
+             \* neither handled nor refused: the frame it choked on was to be
+             \* dispatched, or (everything before it having been dispatched) refused with Abort
+             THEN (IF s.done = "fatal" /\ od = exp /\ po = pe THEN {"C15_FatalAborts", "NOTE_exception"}
+                   ELSE {"C15_DispatchIndependentOfChunking", "NOTE_exception"})
+             ELSE {})
+     \cup (IF ~crashed /\ s.done = "fatal" /\ ~(aborted /\ os.closed) THEN {"C15_FatalAborts"} ELSE {})
      \cup (IF judged /\ others # << >>
              THEN (IF s.nempty > 0 THEN {"C15_EmptyIgnored"} ELSE {"DRIFT_unexpected_output"}) ELSE {})
-     \cup (IF s.done = "peer" /\ \E j \in DOMAIN s.pend : s.pend[j] = "neterr" /\ os.pend[j] # "neterr"
+     \cup (IF ~crashed /\ s.done = "peer" /\ \E j \in DOMAIN s.pend : s.pend[j] = "neterr" /\ os.pend[j] # "neterr"
              THEN {"C15_ReleaseAbortFailPending"} ELSE {})
-     \cup (IF judged /\ \E j \in DOMAIN s.pend : s.pend[j] # os.pend[j] THEN {"DRIFT_pending_requests"} ELSE {})
+     \cup (IF ~crashed /\ judged /\ \E j \in DOMAIN s.pend : s.pend[j] # os.pend[j] THEN {"DRIFT_pending_requests"} ELSE {})
      \cup (IF cutoff
              THEN (IF Len(rest.disp) > Len(exp) \/ Len(rest.wr) > Len(s.wr) \/ rest.done = "fatal"
                      THEN {"C15_DispatchIndependentOfChunking"} ELSE {"DRIFT_closed_without_cause"})
              ELSE {})
-     \cup (IF os.exc # "" THEN {"NOTE_exception"} ELSE {})
-
-RECURSIVE PosAfter(_, _)
-PosAfter(c, k) == IF k = 0 THEN 0 ELSE PosAfter(c, k - 1) + c.cuts[k]
 
 Summary(s) == [ndisp |-> Len(s.disp), codes |-> [i \in 1..Len(s.disp) |-> s.disp[i].code],
                wr |-> s.wr, done |-> s.done, stopAt |-> s.stopAt, csm |-> s.csm, pend |-> s.pend]
 
 IsClause(x) == x \notin {"NOTE_exception", "DRIFT_unexpected_output", "DRIFT_pending_requests", "DRIFT_closed_without_cause"}
 
+\* walks the observed chunks: the model receiver takes the same chunk (where
+\* the statement leaves the reaction open it follows what the endpoint was seen
+\* to do), then the clauses are evaluated.  acc = <<all bad, first bad step, summary there>>
+RECURSIVE Walk(_, _, _, _, _, _, _, _)
+Walk(c, stream, k, st, pos, odr, wbytes, acc) ==
+  IF k > Len(c.obs.steps) THEN acc
+  ELSE LET os  == c.obs.steps[k]
+           n   == c.cuts[k]
+           s2  == RecvChunk(st, SubSeq(stream, pos + 1, pos + n), os.closed /\ os.exc = "", c.maxmsg, c.ptoks)
+           od2 == odr \o os.disp
+           wb2 == wbytes \o os.wr
+           bad == StepBad(c, stream, s2, pos + n, od2, wb2, os, k = Len(c.obs.steps))
+           hot == \E x \in bad : IsClause(x)
+           acc2 == <<acc[1] \cup bad,
+                     IF acc[2] = 0 /\ hot THEN k ELSE acc[2],
+                     IF acc[2] = 0 THEN Summary(s2) ELSE acc[3]>>
+       \* (the test forces the evaluation of this step before the next one starts)
+       IN IF acc2[2] >= 0 /\ acc2[3].ndisp >= 0 THEN Walk(c, stream, k + 1, s2, pos + n, od2, wb2, acc2) ELSE acc2
+
 Judge(c) ==
   LET stream == Flatten([i \in 1..Len(c.frames) |-> c.frames[i].b])
-      n      == Len(c.obs.steps)
-      sts    == States(c, stream, 1, RxInit(Len(c.ptoks)), 0)
-      bad    == [k \in 1..n |-> StepBad(c, stream, k, sts[k], PosAfter(c, k))]
-      all    == UNION {bad[k] : k \in 1..n}
+      r      == Walk(c, stream, 1, RxInit(Len(c.ptoks)), 0, << >>, << >>, <<{}, 0, Summary(RxInit(0))>>)
       init   == ParseFrames(c.obs.init)
       initOK == init.rest = << >> /\ Flatten([i \in 1..Len(init.msgs) |-> Frame(init.msgs[i])]) = c.obs.init
-      hot    == {k \in 1..n : \E x \in bad[k] : IsClause(x)}
-      first  == IF hot = {} THEN 0 ELSE CHOOSE k \in hot : \A j \in hot : k <= j
-  IN <<all \cup (IF initOK THEN {} ELSE {"C15_FrameIs8323"}), first,
-       IF first = 0 THEN (IF n = 0 THEN Summary(RxInit(0)) ELSE Summary(sts[n])) ELSE Summary(sts[first])>>
+  IN <<r[1] \cup (IF initOK THEN {} ELSE {"C15_FrameIs8323"}), r[2], r[3]>>
 
-ASSUME \A i \in 1..Len(Enc) : PrintT(<<"ENC", i, EncHead(Enc[i])>>)
-ASSUME \A i \in 1..Len(Rx) : PrintT(<<"CASE", i>> \o Judge(Rx[i]))
+\* One initial state per item; the work is done while the invariant is checked on
+\* its successor (that is: on a TLC worker thread, whose stack size can be set).
+VARIABLES tid, ph
+evars == <<tid, ph>>
+EInit == tid \in 1..(Len(Enc) + Len(Rx)) /\ ph = 0
+ENext == ph = 0 /\ ph' = 1 /\ UNCHANGED tid
+ESpec == EInit /\ [][ENext]_evars
+Report == ph = 1 =>
+            IF tid <= Len(Enc) THEN PrintT(<<"ENC", tid, EncHead(Enc[tid])>>)
+            ELSE PrintT(<<"CASE", tid - Len(Enc)>> \o Judge(Rx[tid - Len(Enc)]))
 =============================================================================
